@@ -821,6 +821,9 @@ func main() {
 		if out == "hang" || strings.HasPrefix(out, "err") {
 			h.Violate("upstream call failed or blocked on a connection that stays up: " + op + " -> " + out)
 		}
+		if strings.Contains(out, "UNSETTLED") || strings.Contains(out, "RESUME-INCOMPLETE") {
+			h.Violate("the effects of `" + op + "` did not show up within the watchdog (chunk not cut / not transmitted / hook not called / resume incomplete): " + out)
+		}
 		return out
 	}
 	if h.Replay != "" {
